@@ -1224,4 +1224,195 @@ func C17(p *load.Prog, r *oblig.Run) {
 	if len(e.capped) > 0 {
 		r.Note("path enumeration capped in: %s", strings.Join(e.capped, ", "))
 	}
+	c17Living(p, r, e.isLiving)
+}
+
+// relZero interprets "x op k" taken with the given outcome for a numeric constant k:
+// +1 when it implies x != 0 (for x >= 0), -1 when it implies x == 0, 0 otherwise.
+func relZero(op token.Token, k float64, outcome bool) int {
+	if !outcome {
+		switch op {
+		case token.EQL:
+			op = token.NEQ
+		case token.NEQ:
+			op = token.EQL
+		case token.LSS:
+			op = token.GEQ
+		case token.LEQ:
+			op = token.GTR
+		case token.GTR:
+			op = token.LEQ
+		case token.GEQ:
+			op = token.LSS
+		}
+	}
+	switch {
+	case op == token.NEQ && k == 0, op == token.GTR && k >= 0, op == token.GEQ && k > 0:
+		return 1
+	case op == token.EQL && k == 0, op == token.LEQ && k <= 0, op == token.LSS && k > 0 && k <= 1:
+		return -1
+	case op == token.EQL && k != 0:
+		return 1
+	}
+	return 0
+}
+
+// c17Living: structural clauses of the living rule (R17.b).
+func c17Living(p *load.Prog, r *oblig.Run, fn *ssa.Function) {
+	r.Rule("R17.b", "IsLiving answers 'not living' only for a nil individual, a recorded death, or an age above a non-zero MaxLivingAge computed from a non-zero (known) birth year", 3)
+	if fn == nil || len(fn.Blocks) == 0 {
+		r.Add("R17.b", "IsLiving", "-", "anchor").Unknown("IsLiving not found")
+		return
+	}
+	strip := func(v ssa.Value) ssa.Value {
+		for {
+			switch x := v.(type) {
+			case *ssa.Convert:
+				v = x.X
+			case *ssa.ChangeType:
+				v = x.X
+			default:
+				return v
+			}
+		}
+	}
+	classify := func(v ssa.Value) string {
+		v = strip(v)
+		switch x := v.(type) {
+		case *ssa.Parameter:
+			if len(fn.Params) > 0 && x == fn.Params[0] {
+				return "recv"
+			}
+		case *ssa.Call:
+			if b, ok := x.Call.Value.(*ssa.Builtin); ok && b.Name() == "len" {
+				if c, ok := strip(x.Call.Args[0]).(*ssa.Call); ok {
+					if cal := c.Call.StaticCallee(); cal != nil && cal.Name() == "Deaths" {
+						return "deaths"
+					}
+				}
+			}
+			if cal := x.Call.StaticCallee(); cal != nil && cal.Name() == "Years" {
+				return "year"
+			}
+		case *ssa.UnOp:
+			if fa, ok := x.X.(*ssa.FieldAddr); ok && x.Op == token.MUL && su.FieldName(fa) == "MaxLivingAge" {
+				return "max"
+			}
+		}
+		return ""
+	}
+	var rets []*ssa.Return
+	for _, b := range fn.Blocks {
+		if rt, ok := b.Instrs[len(b.Instrs)-1].(*ssa.Return); ok {
+			rets = append(rets, rt)
+		}
+	}
+	paths, capped := simplePaths(fn.Blocks[0], map[*ssa.BasicBlock]bool{}, 5000)
+	if capped {
+		r.Add("R17.b", "IsLiving paths", p.Pos(fn.Pos()), "path enumeration").Unknown("more than 5000 paths")
+		return
+	}
+	for ri, rt := range rets {
+		key := fmt.Sprintf("IsLiving answer #%d", ri+1)
+		o := r.Add("R17.b", key, p.Pos(rt.Pos()), "return of IsLiving")
+		bad := ""
+		n := 0
+		for _, path := range paths {
+			if path[len(path)-1] != rt.Block() || !feasible(path) {
+				continue
+			}
+			n++
+			facts := map[string]int{}
+			for i, b := range path[:len(path)-1] {
+				iff, ok := b.Instrs[len(b.Instrs)-1].(*ssa.If)
+				if !ok {
+					continue
+				}
+				outcome := path[i+1] == b.Succs[0]
+				cond := iff.Cond
+				for {
+					if u, isNot := cond.(*ssa.UnOp); isNot && u.Op == token.NOT {
+						cond, outcome = u.X, !outcome
+						continue
+					}
+					break
+				}
+				bo, ok := cond.(*ssa.BinOp)
+				if !ok {
+					continue
+				}
+				x, y, op := bo.X, bo.Y, bo.Op
+				if _, isK := x.(*ssa.Const); isK {
+					x, y = y, x
+					switch op {
+					case token.LSS:
+						op = token.GTR
+					case token.GTR:
+						op = token.LSS
+					case token.LEQ:
+						op = token.GEQ
+					case token.GEQ:
+						op = token.LEQ
+					}
+				}
+				kc, isK := y.(*ssa.Const)
+				if !isK {
+					continue
+				}
+				what := classify(x)
+				if what == "" {
+					continue
+				}
+				if what == "recv" {
+					if kc.Value == nil && ((op == token.EQL) == outcome) {
+						facts["recv-nil"] = 1
+					}
+					continue
+				}
+				var k float64
+				if f, isF := floatConst(kc); isF {
+					k = f
+				} else if iv, isI := su.ConstInt(kc); isI {
+					k = float64(iv)
+				} else {
+					continue
+				}
+				if z := relZero(op, k, outcome); z != 0 {
+					facts[what] = z
+				}
+			}
+			// the answer on this path
+			val := rt.Results[0]
+			if ph, isPhi := val.(*ssa.Phi); isPhi && ph.Block() == rt.Block() && len(path) >= 2 {
+				prev := path[len(path)-2]
+				for i, q := range ph.Block().Preds {
+					if q == prev {
+						val = ph.Edges[i]
+					}
+				}
+			}
+			if kc, isK := val.(*ssa.Const); isK && kc.Value != nil && kc.Value.Kind() == constant.Bool && constant.BoolVal(kc.Value) {
+				continue // "living" is always a safe answer
+			}
+			if facts["recv-nil"] == 1 || facts["deaths"] == 1 || (facts["max"] == 1 && facts["year"] == 1) {
+				continue
+			}
+			var miss []string
+			if facts["max"] != 1 {
+				miss = append(miss, "MaxLivingAge may be 0 (which means: only an explicit death ends a life)")
+			}
+			if facts["year"] != 1 {
+				miss = append(miss, "the estimated birth year may be 0 (no usable birth date: the person must be presumed living)")
+			}
+			bad = "a path can answer 'not living' without a death although " + strings.Join(miss, " and ")
+		}
+		switch {
+		case n == 0:
+			o.OK("unreachable")
+		case bad != "":
+			o.Fail(bad)
+		default:
+			o.OK(fmt.Sprintf("%d paths: every answer that can be 'not living' follows a nil receiver, a recorded death, or non-zero MaxLivingAge and birth year tests", n))
+		}
+	}
 }
